@@ -40,8 +40,8 @@ PROPS = {
         "suites": ["b64"],
         "level": "proof",
         "technique": "Lean 4 proof over kernels regenerated from base64le.go (OR-decomposition of the shift/mask expressions + exhaustive per-byte kernel evaluation + induction over 3-byte groups and over the three decode loops) + Go/Lean/bit-level-reference correspondence",
-        "claim": "Kernel-checked for ALL byte strings / texts and every padding/strict mode: Encode = the bit-level definition (symbols are successive 6-bit groups of b0|b1<<8|b2<<16), every alphabet index < 64, length arithmetic, decodeMap inverts the alphabet, Decode(Encode(x)) = x, and the model's Decode — 64-bit, 32-bit and per-quantum paths, padding, newline skipping, strict mode — equals an independent declarative reference decoder in result bytes AND error offset (C16Decode.decode_eq_ref), so accepted texts are canonical up to the tolerated unused bits, nothing is ever silently decoded from a foreign byte, and Decode never stores outside its buffer; the exported crypt(3) alphabets are the documented ones (regenerated). The shift/mask expressions are regenerated from the Go source on every run; the loop structure of the hand model is tied to Go by ~300 000 differential operations incl. exhaustive tails and malformed edits.",
-        "note": "Decode is characterised for ALL texts (Props/C16Decode.lean): decode_eq_ref — the model's Decode (three paths, padding, newline skipping, strict mode) equals an independent declarative reference decoder (Spec/Base64Ref.lean) in result bytes AND error offset; accepted_is_canonical_or_tolerated, never_silent_garbage, malformed_rejected, nothing_after_padding, incomplete_rejected, decode_never_panics. Trusted: gogen's expression translator; the loop structure of the hand-written Encode/Decode model is tied to Go by correspondence.",
+        "claim": "Kernel-checked for ALL byte strings / texts and every padding/strict mode: Encode = the bit-level definition (symbols are successive 6-bit groups of b0|b1<<8|b2<<16), every alphabet index < 64, length arithmetic, decodeMap inverts the alphabet, Decode(Encode(x)) = x, and the model's Decode — 64-bit, 32-bit and per-quantum paths, padding, newline skipping, strict mode — equals an independent declarative reference decoder in result bytes AND error offset (C16Decode.decode_eq_ref), so accepted texts are canonical up to the tolerated unused bits, nothing is ever silently decoded from a foreign byte, and Decode never stores outside its buffer; the exported crypt(3) alphabets are the documented ones (regenerated). The BODIES of Encode, EncodeToString, EncodedLen, DecodeString, Decode, decodeQuantum, assemble32/64 and DecodedLen are regenerated from the Go source on every run as structured programs over byte buffers and proved equal to the hand model for every input (Props/B64IR.lean), so the theorems speak about the loops the source has now; the constructors and the whole are also tied to Go by ~300 000 differential operations incl. exhaustive tails and malformed edits.",
+        "note": "Decode is characterised for ALL texts (Props/C16Decode.lean): decode_eq_ref — the model's Decode (three paths, padding, newline skipping, strict mode) equals an independent declarative reference decoder (Spec/Base64Ref.lean) in result bytes AND error offset; accepted_is_canonical_or_tolerated, never_silent_garbage, malformed_rejected, nothing_after_padding, incomplete_rejected, decode_never_panics. Props/B64IR.lean: the regenerated bodies (loops, switch/fallthrough, break/continue, slicing, PutUint64/32, wrap-around) interpreted over a heap of byte buffers equal the hand model, panics included; `stuck` (unknown node, loop bound) equals neither side. Trusted: gogen's buffer-IR translator and the interpreter Base/B64IRBase.lean; NewEncoding/WithPadding/Strict are tied by correspondence only.",
         "rule": "b64: EncodedLen/DecodedLen for n ≤ 300; all 256 one-byte tails, two-byte tails (all 65536 at thorough), 2^16 (quick) / 2^21 (thorough) random three-byte groups, "
                 "random strings up to 4096 bytes in four modes decoded into buffers of five sizes (8-symbol, 4-symbol and quantum paths counted), random symbol quanta with injected bad symbols/padding/newlines, single edits of valid encodings; "
                 "Go vs Lean model, plus Go vs an independent bit-level reference encoder and Decode∘Encode = id directly on Go; non-trivial/distinct = distinct one-/two-byte tails and random strings",
